@@ -11,35 +11,30 @@ open Gen.Sections (Rec)
 instance (c : Char) : Decidable (ValidTyp c) := by unfold ValidTyp; infer_instance
 instance (c : Char) : Decidable (NumericTyp c) := by unfold NumericTyp; infer_instance
 
-def e10_4 : FieldSpec := { raw := c!"10.4", width := 10, left := false, prec := some 4, typ := 'e' }
-def e10_3 : FieldSpec := { raw := c!"10.3", width := 10, left := false, prec := some 3, typ := 'e' }
-def e14_7 : FieldSpec := { raw := c!"14.7", width := 14, left := false, prec := some 7, typ := 'e' }
-def e15_8 : FieldSpec := { raw := c!"15.8", width := 15, left := false, prec := some 8, typ := 'e' }
-def e15_9 : FieldSpec := { raw := c!"15.9", width := 15, left := false, prec := some 9, typ := 'e' }
-def e20_14 : FieldSpec := { raw := c!"20.14", width := 20, left := false, prec := some 14, typ := 'e' }
-def e20_13 : FieldSpec := { raw := c!"20.13", width := 20, left := false, prec := some 13, typ := 'e' }
-def f10_7 : FieldSpec := { raw := c!"10.7", width := 10, left := false, prec := some 7, typ := 'f' }
-def f15_8 : FieldSpec := { raw := c!"15.8", width := 15, left := false, prec := some 8, typ := 'f' }
-def d5 : FieldSpec := { raw := c!"5", width := 5, left := false, prec := none, typ := 'd' }
-def s5 : FieldSpec := { raw := c!"5", width := 5, left := false, prec := none, typ := 's' }
+def recOf (T : Tabs) (n : Str) : Rec := match T.get n with | .ok r => r | .error _ => ⟨[], []⟩
 
-/-- every chunked list of the main table: (record kind, values per line, the one field spec) -/
-def mainChunks : List (Str × Nat × FieldSpec) :=
-  [(c!"timestep", 8, e10_4), (c!"default_incons", 4, e20_14), (c!"output_times2", 8, e10_4),
-   (c!"generation_times", 4, e14_7), (c!"generation_rates", 4, e14_7), (c!"generation_enthalpy", 4, e14_7),
-   (c!"selec2", 8, e10_3), (c!"radii2", 8, e10_4), (c!"layer2", 8, e10_4), (c!"xyz3", 8, e10_4), (c!"part2", 8, e10_4),
-   (c!"incon2", 4, e20_14), (c!"indom2", 4, e20_13), (c!"diffusion", 8, e10_3)]
+/-- field `i` of record kind `n` of table `T` *as it is in the generated table* (so that a change of a width or
+    a precision in /repo changes the statement with it, not its truth) -/
+def fieldAt (T : Tabs) (n : Str) (i : Nat) : FieldSpec :=
+  (recOf T n).fs.getD i { raw := [], width := 0, left := false, prec := none, typ := 'x' }
 
-def xpChunks : List (Str × Nat × FieldSpec) :=
-  [(c!"generation_times", 4, e15_8), (c!"generation_rates", 4, e15_8), (c!"generation_enthalpy", 4, e15_8)]
+/-- every chunked list of the main table: (record kind, values per line) -/
+def mainChunks : List (Str × Nat) :=
+  [(c!"timestep", 8), (c!"default_incons", 4), (c!"output_times2", 8),
+   (c!"generation_times", 4), (c!"generation_rates", 4), (c!"generation_enthalpy", 4),
+   (c!"selec2", 8), (c!"radii2", 8), (c!"layer2", 8), (c!"xyz3", 8), (c!"part2", 8),
+   (c!"incon2", 4), (c!"indom2", 4), (c!"diffusion", 8)]
 
-def chunkOK (T : Tabs) (e : Str × Nat × FieldSpec) : Bool :=
+def xpChunks : List (Str × Nat) :=
+  [(c!"generation_times", 4), (c!"generation_rates", 4), (c!"generation_enthalpy", 4)]
+
+def chunkOK (T : Tabs) (e : Str × Nat) : Bool :=
   match T.get e.1 with
-  | .ok r => decide (r.fs.length = e.2.1) && r.fs.all (· == e.2.2) && decide (NumericTyp e.2.2.typ) && decide (0 < e.2.1)
+  | .ok r => decide (r.fs.length = e.2) && r.fs.all (· == fieldAt T e.1 0) && decide (NumericTyp (fieldAt T e.1 0).typ) && decide (0 < e.2)
   | .error _ => false
 
-theorem chunkOK_spec {T : Tabs} {e : Str × Nat × FieldSpec} (h : chunkOK T e = true) :
-    ∃ r, T.get e.1 = .ok r ∧ ChunkRec r e.2.1 e.2.2 ∧ 0 < e.2.1 := by
+theorem chunkOK_spec {T : Tabs} {e : Str × Nat} (h : chunkOK T e = true) :
+    ∃ r, T.get e.1 = .ok r ∧ ChunkRec r e.2 (fieldAt T e.1 0) ∧ 0 < e.2 := by
   unfold chunkOK at h
   cases hg : T.get e.1 with
   | error err => rw [hg] at h; cases h
@@ -64,36 +59,36 @@ theorem all_records_wf :
     (∀ e ∈ Gen.Sections.mainTable, recWFb e.2 = true) ∧ (∀ e ∈ Gen.Sections.xpTable, recWFb e.2 = true) := by
   constructor <;> decide +kernel
 
-theorem main_times :
-    mainTabs.get c!"output_times1" = .ok ⟨[c!"num_times_specified", c!"num_times", c!"max_timestep", c!"time_increment"],
-      [d5, d5, e10_4, e10_4]⟩ := by decide +kernel
+theorem main_times_rec : mainTabs.get c!"output_times1" = .ok (recOf mainTabs c!"output_times1") ∧
+    RecWF (recOf mainTabs c!"output_times1") :=
+  ⟨by decide +kernel, recWFb_spec (by decide +kernel)⟩
 
-def recOf (T : Tabs) (n : Str) : Rec := match T.get n with | .ok r => r | .error _ => ⟨[], []⟩
+theorem incon_shape : mainTabs.get c!"incon1" = .ok (recOf mainTabs c!"incon1") ∧
+    mainTabs.get c!"incon2" = .ok (recOf mainTabs c!"incon2") ∧
+    InconShape (recOf mainTabs c!"incon1") (recOf mainTabs c!"incon2") (fieldAt mainTabs c!"incon1" 0)
+      (fieldAt mainTabs c!"incon1" 1) (fieldAt mainTabs c!"incon1" 2) (fieldAt mainTabs c!"incon1" 3) :=
+  ⟨by decide +kernel, by decide +kernel,
+   ⟨by decide +kernel, ⟨by decide +kernel, by decide +kernel, by decide +kernel⟩, by decide +kernel, by decide +kernel,
+    by decide +kernel, by decide +kernel⟩⟩
 
-theorem main_incon_shape : ∃ r1 r2, mainTabs.get c!"incon1" = .ok r1 ∧ mainTabs.get c!"incon2" = .ok r2 ∧
-    InconShape r1 r2 s5 d5 d5 e15_9 := by
-  refine ⟨recOf mainTabs c!"incon1", recOf mainTabs c!"incon2", by decide +kernel, by decide +kernel,
-    ⟨by decide +kernel, ⟨rfl, rfl, rfl⟩, by decide, by decide, by decide, by decide +kernel⟩⟩
+theorem block_shape (T : Tabs) (hT : T = mainTabs ∨ T = xpTabs) :
+    T.get c!"blocks" = .ok (recOf T c!"blocks") ∧
+    BlockShape (recOf T c!"blocks") (fieldAt T c!"blocks" 0) (fieldAt T c!"blocks" 1) (fieldAt T c!"blocks" 2)
+      (fieldAt T c!"blocks" 3) (fieldAt T c!"blocks" 4) (fieldAt T c!"blocks" 5) (fieldAt T c!"blocks" 6)
+      (fieldAt T c!"blocks" 7) (fieldAt T c!"blocks" 8) (fieldAt T c!"blocks" 9) := by
+  rcases hT with rfl | rfl <;>
+  exact ⟨by decide +kernel, ⟨by decide +kernel, by decide +kernel, ⟨by decide +kernel, by decide +kernel, by decide +kernel⟩,
+    ⟨by decide +kernel, by decide +kernel, by decide +kernel⟩, by decide +kernel⟩⟩
 
-theorem main_block_shape : ∃ r, mainTabs.get c!"blocks" = .ok r ∧
-    BlockShape r s5 d5 d5 s5 e10_4 e10_4 e10_4 e10_3 e10_3 e10_3 := by
-  refine ⟨recOf mainTabs c!"blocks", by decide +kernel,
-    ⟨by decide +kernel, by decide +kernel, ⟨rfl, rfl, rfl⟩, ⟨rfl, rfl, rfl⟩, by decide +kernel⟩⟩
-
-theorem xp_block_shape : ∃ r, xpTabs.get c!"blocks" = .ok r ∧
-    BlockShape r s5 d5 d5 s5 e15_8 e15_8 e15_8 e15_8 e15_8 e15_8 := by
-  refine ⟨recOf xpTabs c!"blocks", by decide +kernel,
-    ⟨by decide +kernel, by decide +kernel, ⟨rfl, rfl, rfl⟩, ⟨rfl, rfl, rfl⟩, by decide +kernel⟩⟩
-
-theorem main_conn_shape : ∃ r, mainTabs.get c!"connections" = .ok r ∧
-    ConnShape r s5 s5 d5 d5 d5 d5 e10_4 e10_4 e10_4 f10_7 e10_3 := by
-  refine ⟨recOf mainTabs c!"connections", by decide +kernel,
-    ⟨by decide +kernel, ⟨rfl, rfl, rfl⟩, ⟨rfl, rfl, rfl⟩, by decide +kernel⟩⟩
-
-theorem xp_conn_shape : ∃ r, xpTabs.get c!"connections" = .ok r ∧
-    ConnShape r s5 s5 d5 d5 d5 d5 e15_8 e15_8 e15_8 f15_8 e15_8 := by
-  refine ⟨recOf xpTabs c!"connections", by decide +kernel,
-    ⟨by decide +kernel, ⟨rfl, rfl, rfl⟩, ⟨rfl, rfl, rfl⟩, by decide +kernel⟩⟩
+theorem conn_shape (T : Tabs) (hT : T = mainTabs ∨ T = xpTabs) :
+    T.get c!"connections" = .ok (recOf T c!"connections") ∧
+    ConnShape (recOf T c!"connections") (fieldAt T c!"connections" 0) (fieldAt T c!"connections" 1)
+      (fieldAt T c!"connections" 2) (fieldAt T c!"connections" 3) (fieldAt T c!"connections" 4)
+      (fieldAt T c!"connections" 5) (fieldAt T c!"connections" 6) (fieldAt T c!"connections" 7)
+      (fieldAt T c!"connections" 8) (fieldAt T c!"connections" 9) (fieldAt T c!"connections" 10) := by
+  rcases hT with rfl | rfl <;>
+  exact ⟨by decide +kernel, ⟨by decide +kernel, ⟨by decide +kernel, by decide +kernel, by decide +kernel⟩,
+    ⟨by decide +kernel, by decide +kernel, by decide +kernel⟩, by decide +kernel⟩⟩
 
 /-! ### keyword → reader / writer dispatch as it is in /repo -/
 
